@@ -13,6 +13,10 @@ TARGET = os.path.join(VERIF, ".cache", "replay-target")
 REPO = assemble.REPO
 
 
+# units that have an executable spec twin + input generator in /verif/replay (unit name -> side-car target)
+SEARCHERS = {"time_locks": "time_locks", "int_encoders": "int_encoders", "merkle_set": "merkle_set", "tree_hash": "tree_hash"}
+
+
 def _env():
     e = dict(os.environ)
     e["CARGO_TARGET_DIR"] = TARGET
